@@ -112,7 +112,10 @@ def check_model(rep, drv, gen, rng, m, text, c):
             mag = np.array(mags, dtype=float)
             with np.errstate(all="ignore"):
                 same = ((out == want) | (np.isnan(out) & np.isnan(want)) | (np.abs(out - want) <= 1e-12 * (np.abs(out) + np.abs(want)))
-                        | (np.abs(out - want) <= 1e-14 * mag))
+                        | (np.abs(out - want) <= 1e-14 * mag)
+                        # ... and when that value is multiplied by another factor (a**(c/3) * sin(x) with |x| ~ 1e4) the absolute
+                        # difference scales with the result as well
+                        | (np.abs(out - want) <= 1e-13 * mag * (np.abs(out) + np.abs(want))))
             if not bool(np.all(same)):
                 j = int(np.argwhere(~same)[0][-1])
                 failing = (f"{fname}: column {j} of the batch result differs from the call on column {j} alone",
